@@ -1587,6 +1587,23 @@ func ruleParseExt(c *Ctx, r *Rep) {
 			}
 		}
 		r.Check(good, "all-fields|"+fk, c.Pos(fieldVar.Pos()), "field index 0, 1, … while below NumField()", how)
+		// and no field is skipped by leaving the loop: the loop ends through its condition or by returning
+		h := fieldVar.Block()
+		early := ""
+		for _, sc := range h.Succs {
+			if inner[sc] {
+				continue
+			}
+			for _, p := range sc.Preds {
+				if p != h && h.Dominates(p) {
+					early = "left early"
+					if at := firstPos(p); at != "" {
+						early = "left early at " + at
+					}
+				}
+			}
+		}
+		r.Check(early == "", "all-fields-seen|"+fk, c.Pos(fieldVar.Pos()), "the loop over the fields is left only when all fields were looked at, or by returning", early)
 	}
 	// the flag: a boolean phi at the head of the field loop
 	for _, ins := range fieldVar.Block().Instrs {
@@ -3415,6 +3432,48 @@ func ruleBufLoop(c *Ctx, r *Rep) {
 				}
 			}
 		}
+		// Bytes() hands out the buffer's own memory: what it returned is not used any more once the buffer has been reset
+		// or written again (two encodings taken from one buffer and then compared are the same bytes)
+		q := 0
+		for _, ci := range callsIn(fn) {
+			if calleeFullName(ci) != "(*bytes.Buffer).Bytes" {
+				continue
+			}
+			v := ci.Value()
+			if v == nil {
+				continue
+			}
+			buf := ci.Common().Args[0]
+			var modifiers []ssa.CallInstruction
+			for _, cj := range callsIn(fn) {
+				name := calleeFullName(cj)
+				if len(cj.Common().Args) > 0 && cj.Common().Args[0] == buf && cj != ci &&
+					(name == "(*bytes.Buffer).Reset" || name == "(*bytes.Buffer).Truncate" || strings.HasPrefix(name, "(*bytes.Buffer).Write")) && reachableFromInstr(ci, cj) {
+					modifiers = append(modifiers, cj)
+				}
+				// the buffer handed to an encoder as a writer
+				if cj != ci && reachableFromInstr(ci, cj) {
+					for _, a := range cj.Common().Args[min1(len(cj.Common().Args)):] {
+						if mi, ok := a.(*ssa.MakeInterface); ok && mi.X == buf {
+							modifiers = append(modifiers, cj)
+						}
+					}
+				}
+			}
+			if len(modifiers) == 0 {
+				continue
+			}
+			q++
+			stale := ""
+			for _, ref := range *v.Referrers() {
+				for _, m := range modifiers {
+					if ref != ssa.Instruction(m) && reachesAvoiding(m, ref, ci) {
+						stale = "used at " + c.Pos(ref.Pos()) + " after " + calleeFullName(m)
+					}
+				}
+			}
+			r.Check(stale == "", sprintf("bytes-not-used-after-rewrite|%s#%d", c.FuncKey(fn), q), c.Pos(ci.Pos()), "what Bytes() returned is not read after the buffer was reset or written again", stale)
+		}
 		// writes of the constant nil
 		k := 0
 		for _, ci := range callsIn(fn) {
@@ -3489,6 +3548,7 @@ func ruleNilChecked(c *Ctx, r *Rep) {
 				tests = append(tests, test{p, iff})
 			}
 		}
+		optionalDecoded(c, r, fn)
 		if len(tests) == 0 {
 			continue
 		}
@@ -3629,6 +3689,36 @@ func ruleFillAll(c *Ctx, r *Rep) {
 						continue
 					}
 					mk, ok := ia.X.(*ssa.MakeSlice)
+					if !ok {
+						// the list kept in a field: policyIds[i].Qualifiers = make(…, len(in)) and then
+						// policyIds[i].Qualifiers[j].X = … through a fresh read of the field
+						if ld, isLd := ia.X.(*ssa.UnOp); isLd && ld.Op == token.MUL {
+							if fa, isFa := ld.X.(*ssa.FieldAddr); isFa {
+								for _, b2 := range fn.Blocks {
+									for _, i2 := range b2.Instrs {
+										st2, isSt := i2.(*ssa.Store)
+										if !isSt {
+											continue
+										}
+										fa2, isFa2 := st2.Addr.(*ssa.FieldAddr)
+										if !isFa2 || fa2.Field != fa.Field || !types.Identical(fa2.X.Type(), fa.X.Type()) {
+											continue
+										}
+										// the same element of the same outer list (or the same struct)
+										sameBase := fa2.X == fa.X
+										if ia1, ok1 := fa.X.(*ssa.IndexAddr); ok1 && !sameBase {
+											if ia2, ok2 := fa2.X.(*ssa.IndexAddr); ok2 && ia1.X == ia2.X && ia1.Index == ia2.Index {
+												sameBase = true
+											}
+										}
+										if m2, isMk := st2.Val.(*ssa.MakeSlice); isMk && sameBase {
+											mk, ok = m2, true
+										}
+									}
+								}
+							}
+						}
+					}
 					if !ok || body[mk.Block()] {
 						continue
 					}
@@ -3673,6 +3763,28 @@ func ruleFillAll(c *Ctx, r *Rep) {
 					}
 				}
 				r.Check(!avoid, sprintf("every-round-stores|%s#%d", c.FuncKey(fn), n), c.Pos(out.Pos()), "no way round the loop leaves the element's place in the list unfilled", sprintf("a round without a store exists: %v", avoid))
+				// and the loop is left only through its own condition (or by returning): a `break` leaves the places of
+				// all later elements unfilled
+				var done *ssa.BasicBlock
+				for _, sc := range h.Succs {
+					if !body[sc] {
+						done = sc
+					}
+				}
+				early := ""
+				if done != nil {
+					// a block that breaks out cannot come round again, so it is not part of the natural loop: it shows as
+					// another way into the block behind the loop, from below the header
+					for _, p := range done.Preds {
+						if p != h && h.Dominates(p) {
+							early = "left early"
+							if at := firstPos(p); at != "" {
+								early = "left early at " + at
+							}
+						}
+					}
+				}
+				r.Check(early == "", sprintf("no-early-exit|%s#%d", c.FuncKey(fn), n), c.Pos(out.Pos()), "a loop that fills one place per element is left only when all elements were seen (or by returning)", early)
 			}
 		}
 	}
@@ -3881,4 +3993,197 @@ func ruleMapOrder(c *Ctx, r *Rep) {
 			r.Check(bad == "", sprintf("map-order|%s#%d", c.FuncKey(fn), n), c.Pos(at), "nothing ordered is built in the order of a map", bad)
 		}
 	}
+}
+
+// optionalDecoded: a pointer-typed field of a struct that is decoded from a configuration document (a json tag, or
+// embedded, in the configuration packages) is nil whenever the document leaves the key out. Every dereference through a
+// read of such a field lies behind a test that has found it not nil - whether or not the function tests it anywhere.
+func optionalDecoded(c *Ctx, r *Rep, fn *ssa.Function) {
+	type place struct {
+		base  ssa.Value // the address of the struct
+		owner *types.Named
+		field int
+	}
+	optPtr := func(nt *types.Named, idx int) bool {
+		if nt == nil || !c.IsModObj(nt.Obj()) || !strings.Contains(nt.Obj().Pkg().Path(), "/config") {
+			return false
+		}
+		st, ok := nt.Underlying().(*types.Struct)
+		if !ok {
+			return false
+		}
+		f := st.Field(idx)
+		if _, isPtr := f.Type().Underlying().(*types.Pointer); !isPtr {
+			return false
+		}
+		tag := reflect.StructTag(st.Tag(idx)).Get("json")
+		return tag != "" && tag != "-" || f.Embedded()
+	}
+	// the pointer read: *(&s.f), or (*s).f for a struct loaded whole
+	placeOf := func(v ssa.Value) (place, bool) {
+		switch x := v.(type) {
+		case *ssa.UnOp:
+			if x.Op != token.MUL {
+				return place{}, false
+			}
+			if fa, ok := x.X.(*ssa.FieldAddr); ok {
+				if pt, ok := fa.X.Type().Underlying().(*types.Pointer); ok {
+					nt, _ := pt.Elem().(*types.Named)
+					return place{fa.X, nt, fa.Field}, nt != nil
+				}
+			}
+		case *ssa.Field:
+			if ld, ok := x.X.(*ssa.UnOp); ok && ld.Op == token.MUL {
+				nt, _ := x.X.Type().(*types.Named)
+				return place{ld.X, nt, x.Field}, nt != nil
+			}
+		}
+		return place{}, false
+	}
+	n := 0
+	for _, b := range fn.Blocks {
+		for _, ins := range b.Instrs {
+			var through ssa.Value
+			switch u := ins.(type) {
+			case *ssa.FieldAddr:
+				through = u.X
+			case *ssa.UnOp:
+				if u.Op == token.MUL {
+					through = u.X
+				}
+			}
+			if through == nil {
+				continue
+			}
+			p, ok := placeOf(through)
+			if !ok || !optPtr(p.owner, p.field) {
+				continue
+			}
+			// assigned in this very function: not the decoded value any more
+			assigned := false
+			for _, b2 := range fn.Blocks {
+				for _, i2 := range b2.Instrs {
+					if st, ok := i2.(*ssa.Store); ok {
+						if fa2, ok := st.Addr.(*ssa.FieldAddr); ok && fa2.Field == p.field && types.Identical(fa2.X.Type(), types.NewPointer(p.owner)) {
+							assigned = true
+						}
+					}
+				}
+			}
+			if assigned {
+				continue
+			}
+			n++
+			known := false
+			for _, g := range guardsOf(b) {
+				if x, isNil, ok := nilTestOf(g.Cond, g.Truth); ok && !isNil {
+					if gp, ok := placeOf(x); ok && gp.field == p.field && gp.owner == p.owner && (gp.base == p.base || types.Identical(gp.base.Type(), p.base.Type())) {
+						known = true
+					}
+				}
+			}
+			// the common handler of the struct answered "nothing to say": it does so only where the content exists
+			// (RAW-TABLE decides that), so behind `builder == nil` the content pointer is set
+			if !known {
+				for _, g := range guardsOf(b) {
+					x, isNil, ok := nilTestOf(g.Cond, g.Truth)
+					if !ok || !isNil {
+						continue
+					}
+					ex, ok := x.(*ssa.Extract)
+					if !ok || ex.Index != 0 {
+						continue
+					}
+					call, ok := ex.Tuple.(*ssa.Call)
+					if !ok || call.Call.StaticCallee() == nil || !c.InModule(call.Call.StaticCallee()) {
+						continue
+					}
+					for _, a := range call.Call.Args {
+						if mi, ok := a.(*ssa.MakeInterface); ok {
+							if l2, ok := mi.X.(*ssa.UnOp); ok && l2.Op == token.MUL && l2.X == p.base {
+								known = true
+							}
+						}
+					}
+				}
+			}
+			pos := ins.Pos()
+			if pos == token.NoPos {
+				pos = through.Pos()
+			}
+			if pos == token.NoPos {
+				pos = fn.Pos()
+			}
+			st, _ := p.owner.Underlying().(*types.Struct)
+			r.Check(known, sprintf("optional-pointer|%s#%d", c.FuncKey(fn), n), c.Pos(pos), "a pointer field that is nil when the document leaves the key out is dereferenced only behind a test that found it not nil", sprintf("field %s: non-nil established: %v", st.Field(p.field).Name(), known))
+		}
+	}
+}
+
+func min1(n int) int {
+	if n > 0 {
+		return 0
+	}
+	return n
+}
+
+// reachesAvoiding: instruction to can be executed after from on a way that does not execute def in between (def defines
+// the value used at to: a way through def reads a new value).
+func reachesAvoiding(from, to, def ssa.Instruction) bool {
+	idx := func(ins ssa.Instruction) int {
+		for i, x := range ins.Block().Instrs {
+			if x == ins {
+				return i
+			}
+		}
+		return -1
+	}
+	// scan a block from position start: true if `to` is met before `def`; cont if the end is reached without meeting def
+	scan := func(b *ssa.BasicBlock, start int) (hit, cont bool) {
+		for i := start; i < len(b.Instrs); i++ {
+			if b.Instrs[i] == to {
+				return true, false
+			}
+			if b.Instrs[i] == def {
+				return false, false
+			}
+		}
+		return false, true
+	}
+	hit, cont := scan(from.Block(), idx(from)+1)
+	if hit {
+		return true
+	}
+	if !cont {
+		return false
+	}
+	seen := map[*ssa.BasicBlock]bool{}
+	stack := append([]*ssa.BasicBlock{}, from.Block().Succs...)
+	for len(stack) > 0 {
+		b := stack[len(stack)-1]
+		stack = stack[:len(stack)-1]
+		if seen[b] {
+			continue
+		}
+		seen[b] = true
+		hit, cont := scan(b, 0)
+		if hit {
+			return true
+		}
+		if cont {
+			stack = append(stack, b.Succs...)
+		}
+	}
+	return false
+}
+
+// firstPos: the position of the first instruction of b that has one (as text), "" if none has.
+func firstPos(b *ssa.BasicBlock) string {
+	for _, ins := range b.Instrs {
+		if ins.Pos() != token.NoPos {
+			p := b.Parent().Prog.Fset.Position(ins.Pos())
+			return sprintf("%s:%d", p.Filename, p.Line)
+		}
+	}
+	return ""
 }
